@@ -602,6 +602,8 @@ static void gen(void)
 			stall_len[t][i] = (unsigned short) (100 + rnd(3000));
 			if (op->kind == K_RESIZE && rnd(2))
 				stall_ord[t][i] = (unsigned short) (1 + rnd(700));	/* somewhere deep inside the resize */
+			if (op->kind == K_FILL && rnd(2))
+				stall_ord[t][i] = (unsigned short) (1 + rnd(60 * (unsigned) op->v));	/* inside any of its insertions (lazy resize launch) */
 			if (op->kind == K_RESIZE)
 				usim_describe("%s\"resize(%ld)\"", i ? "," : "", op->v);
 			else if (op->kind == K_FILL)
@@ -616,7 +618,7 @@ static void gen(void)
 		usim_describe("]");
 	}
 	usim_describe("]}");
-	final_stall_ord = (int) usim_param("final_stall_ord", rnd(5) ? 1 + (int) rnd(9) : 0);
+	final_stall_ord = (int) usim_param("final_stall_ord", rnd(5) ? 1 + (int) rnd(rnd(2) ? 9 : 60) : 0);
 	final_stall_len = 300 + (int) rnd(4000);
 	final_grow = (int) usim_param("final_grow", rnd(2));
 	destroy_first = (int) usim_param("destroy_first", rnd(2));
